@@ -1386,6 +1386,16 @@ func ruleASG4(c *Ctx) {
 				if !fromVal {
 					okVal = false
 				}
+				// ... the object as it is: a reflect conversion of it on the way in (to the type the key held before, say)
+				// stores another value than the one the action computed (round-6 seed C04/k: Share = F.Num / F.Den became 3)
+				if mn == "Add" {
+					for _, ci := range callsIn(m) {
+						name := calleeName(ci)
+						if name == "(reflect.Value).Convert" || name == "(reflect.Value).SetInt" || name == "(reflect.Value).SetFloat" || name == "(reflect.Value).SetUint" || name == "model.SetNumberValue" {
+							okVal = false
+						}
+					}
+				}
 			}
 		}
 		c.Check(n >= 1 && okKey && okVal && okMap, "DataContext."+mn+" / ObjectStore[key] = node(obj)", p.Pos(m.Pos()), "keyed by the key parameter, value built from the object parameter", fmt.Sprintf("the fact is not stored in the context's own ObjectStore under exactly the given key with a node of exactly the given object (stores=%d ownMap=%v key=%v value=%v): a top-level assignment would write somewhere a later read does not look", n, okMap, okKey, okVal))
@@ -1444,7 +1454,14 @@ func ruleASG5(c *Ctx) {
 				continue
 			}
 			key := fmt.Sprintf("%s.%s keeps nothing in the node", typ, publicName(fn))
-			ws := receiverRootedWrites(fn)
+			var ws []ssa.Instruction
+			for _, w := range receiverRootedWrites(fn) {
+				// the dispatch of the built-in Append to AppendValue is that method's one permitted write, not a second one
+				if ci, isCall := w.(ssa.CallInstruction); isCall && calleeNameIs(ci, "AppendValue") {
+					continue
+				}
+				ws = append(ws, w)
+			}
 			if len(ws) == 0 {
 				c.OK(key, p.Pos(fn.Pos()), "no store through the receiver")
 				continue
